@@ -235,6 +235,22 @@ func TestC07(t *testing.T) {
 		}
 		msgBytesCase(r, 0, nil, b, "msg-random")
 	}
+	// every length prefix around the boundaries of the integer types the length check could be done in
+	var claims []uint64
+	for _, c := range []uint64{0, 0xff, 0x100, 0xffff, 0x10000, 0xffffff, 0x1000000, 0x7fffffff, 0x80000000, 0xffffffff} {
+		for d := -18; d <= 18; d++ {
+			if v := int64(c) + int64(d); v >= 0 && v <= 0xffffffff {
+				claims = append(claims, uint64(v))
+			}
+		}
+	}
+	for _, claimed := range claims {
+		for actual := 0; actual <= 9; actual++ {
+			b := []byte{0, byte(claimed >> 24), byte(claimed >> 16), byte(claimed >> 8), byte(claimed)}
+			b = append(b, randBytes(rng, actual)...)
+			msgBytesCase(r, 0, nil, b, "msg-length-boundary")
+		}
+	}
 	// window bookkeeping: all 256 ACK/NACK values against every window state
 	queueDiff(r, 2, pick(8, 16), allSeqs(), "queue-exh")
 	queueMisc(r)
